@@ -31,7 +31,19 @@ def configs(tier, seed):
             out.append(dict(kind=kind, args=[3, 2, mc, 2], S=1, mults=[0, 1, 3], ngrams=ng,
                             depth=5, saveload=False))
             out.append(dict(kind=kind, args=[2, 2], S=2, mults=[1, 3, 20], ngrams=[], depth=3))
+        # sketches living in shared memory, table sizes that leave the counters unaligned
+        out.append(dict(kind="linear", args=[3, 3], S=1, mults=[1, 3], ngrams=[], depth=4, shared=True,
+                        saveload=False))
+        out.append(dict(kind="log8", args=[5, 1, 1000, 2], S=1, mults=[1, 3], ngrams=[], depth=4,
+                        shared=True, saveload=False))
+        out.append(dict(kind="log16", args=[3, 1, 10**6, 2], S=1, mults=[1, 3], ngrams=[], depth=4,
+                        shared=True, saveload=False))
     else:
+        out.append(dict(kind="linear", args=[3, 3], S=2, mults=[1, 3], ngrams=[], depth=4, shared=True))
+        out.append(dict(kind="log8", args=[5, 1, 1000, 2], S=2, mults=[1, 3], ngrams=[], depth=4,
+                        shared=True, saveload=False))
+        out.append(dict(kind="log16", args=[3, 1, 10**6, 2], S=2, mults=[1, 3], ngrams=[], depth=4,
+                        shared=True, saveload=False))
         for w, d in [(1, 1), (2, 2), (3, 2), (2, 3), (4, 2)]:
             out.append(dict(kind="linear", args=[w, d], S=2, mults=lin, ngrams=ng, depth=4))
         for kind, mc in (("log8", 1000), ("log16", 10**6)):
@@ -47,7 +59,7 @@ def configs(tier, seed):
 
 
 def pool_size(tier):
-    return 13 if tier == "quick" else 16
+    return 16
 
 
 def run(rep):
